@@ -1,7 +1,8 @@
 (* Theory/Log.v -- proofs for C25 over Model/Log.v (the view calculation of log). *)
 From Coq Require Import List Arith Bool Lia Permutation.
 From BV Require Import Lib.Dag Theory.DagFacts Lib.DagMergeSort Theory.DagMergeSortFacts
-                       Theory.DagMergeSortMainline Model.RevSpec Theory.RevSpec Model.Log Theory.LogRbd.
+                       Theory.DagMergeSortMainline Theory.DagMergeSortRevnos
+                       Model.RevSpec Theory.RevSpec Model.Log Theory.LogRbd.
 Import ListNotations.
 
 (* the filter of reverse_by_depth on views: an entry needs a revno *)
@@ -508,10 +509,15 @@ Section NoLeak.
     eapply nth_error_In. exact X.
   Qed.
 
-  Theorem obvious_is_linear s end_ excl : lines_ok b ->
+  Lemma lines_ok_holds : lines_ok b.
+  Proof.
+    unfold lines_ok. rewrite T. intros es ee a k x y. apply (merge_sorted_same_line (br_g b) t W L).
+  Qed.
+
+  Theorem obvious_is_linear s end_ excl :
     is_obvious_ancestor b (Some s) end_ = true -> snd (linear_view b (Some s) end_ excl) = None.
   Proof.
-    intros LO O.
+    intros O. pose proof lines_ok_holds as LO.
     assert (Hin : In s (lefthand_opt (br_g b) (match end_ with Some e => Some e | None => br_tip b end))).
     { unfold is_obvious_ancestor in O. destruct end_ as [e|].
       - destruct (revision_id_to_dotted_revno b (Some s)) as [sd|] eqn:Es; [|discriminate].
@@ -543,12 +549,12 @@ Section NoLeak.
   Qed.
 
   (* _calc_view_revisions never ends with the internal _StartNotLinearAncestor *)
-  Theorem calc_view_no_internal_error start end_ forward gen_merge delayed excl : lines_ok b ->
+  Theorem calc_view_no_internal_error start end_ forward gen_merge delayed excl :
     snd (calc_view b start end_ forward gen_merge delayed excl) <> Some StartNotLinearAncestor.
   Proof.
-    intros LO H.
+    intros H.
     destruct (calc_view_internal_error_guarded b start end_ forward gen_merge delayed excl H)
       as [_ [_ [[s ->] [O E]]]].
-    rewrite (obvious_is_linear s end_ excl LO O) in E. discriminate.
+    rewrite (obvious_is_linear s end_ excl O) in E. discriminate.
   Qed.
 End NoLeak.
